@@ -1,0 +1,35 @@
+// Add-only test shim (build tag verif): ReadPrefixCodes on a byte string, so
+// that the choice between GeneratePrefixes and handleDegenerateCodes made by
+// the real reader can be compared with a model.
+
+//go:build verif
+// +build verif
+
+package bzip2
+
+import (
+	"bytes"
+
+	"github.com/dsnet/compress/internal/errors"
+	"github.com/dsnet/compress/internal/prefix"
+)
+
+// VerifReadPrefixCodes runs prefixReader.ReadPrefixCodes for a single tree of
+// numSyms symbols on data (the code-length section of a block header for one
+// tree, most significant bit first) and returns the code list the decoder is
+// initialised with, the number of codes prefix.Decoder reports, and the error
+// raised through errors.Panic, if any. Run-time panics are not caught here.
+func VerifReadPrefixCodes(data []byte, numSyms int) (codes []VerifCode, treeSyms uint32, err error) {
+	defer errors.Recover(&err)
+	var pr prefixReader
+	pr.Init(bytes.NewReader(data))
+	var arr [maxNumSyms]prefix.PrefixCode
+	cs := []prefix.PrefixCodes{arr[:numSyms]}
+	trees := make([]prefix.Decoder, 1)
+	pr.ReadPrefixCodes(cs, trees)
+	codes = make([]VerifCode, len(cs[0]))
+	for i, c := range cs[0] {
+		codes[i] = VerifCode{c.Sym, c.Len, c.Val}
+	}
+	return codes, trees[0].NumSyms, nil
+}
